@@ -69,3 +69,16 @@ claim("C06", "model-based property testing (proptest): sat occupancy from the re
 claim("C07", "model-based property testing (proptest): S(tx) from the reference model vs recorded parents and derived tables",
       "Generated parent references of every kind; recorded parents must equal named ∩ spent-or-revealed ∩ older, children/latest-child tables must be consistent.",
       "S(tx) computed from sats (model), not from ord's flotsam list.")
+
+claim("C08", "invariant checking over generated histories (proptest) + reference model as second opinion",
+      "Supply conservation, no zero/unknown/duplicated balances, no runes on OP_RETURN or spent outputs and mints <= cap are evaluated from index data at every checkpoint of generated rune-heavy chains; RefRunes equality as a second oracle.",
+      "Runestone::decipher (C25) and Rune::minimum_at_height (C33) trusted.")
+claim("C09", "model-based property testing (proptest): RefRunes allocation vs index balances",
+      "Generated dense runestones over generated input balances and output layouts; per-output balances and burned totals must equal the reference allocation written from the specification.",
+      "as C08")
+claim("C10", "model-based property testing (proptest): reference mintable() from the specification text vs indexed mint counts",
+      "Generated terms around every window edge and cap, mints before/at/after each edge, in cenotaphs, of unetched and later-etched ids; entries and balances must equal RefRunes.",
+      "as C08")
+claim("C11", "model-based property testing (proptest): reference etching validity vs the indexed rune set",
+      "Generated names around the minimum, reserved, duplicate, unnamed; commitments of every kind and age; set of runes, ids, numbers, names and lookup tables must equal RefRunes and be mutually consistent.",
+      "as C08; commitment look-ups answered by the mock node")
